@@ -75,9 +75,3 @@ package minter
 //@   loop 0 invariant sum: blockchain.totalPower != nil && fresh(blockchain.totalPower) && blockchain.totalPower.val == old(presentPower(vals, rangeindex + 1, blockchain))
 //@   loop 0 invariant dom: fresh(blockchain.validatorsPowers) && forall i int :: 0 <= i && i < len(vals) ==> ((vals[i].PubKey in blockchain.validatorsPowers) <==> (i <= rangeindex && old(isPresent(vals[i], blockchain))))
 //@   loop 0 invariant pow: forall i int :: 0 <= i && i <= rangeindex && old(isPresent(vals[i], blockchain)) ==> blockchain.validatorsPowers[vals[i].PubKey] != nil && fresh(blockchain.validatorsPowers[vals[i].PubKey]) && blockchain.validatorsPowers[vals[i].PubKey] != blockchain.totalPower && blockchain.validatorsPowers[vals[i].PubKey].val == old(vals[i].totalStake.val)
-
-//@ # ---------------------------------------------------------------- block start (C16, C18, C19, C28)
-//@ func (*Blockchain).BeginBlock
-//@   serves C16 C18 C19 C28
-//@   requires blockchain != nil && blockchain.stateDeliver != nil
-//@   ensures dummy: true
